@@ -1643,3 +1643,93 @@ Proof.
     unfold child_key in Hk. cbn in Hk. destruct (7 =? k) eqn:E7; [|discriminate]. apply N.eqb_eq in E7. subst k. reflexivity.
   - split; [exact I|]. vm_compute. repeat split; reflexivity.
 Qed.
+
+(** * Are the revocation requests of a given-up class always all performed? *)
+
+(** The full statement: whatever class the child gives up, the parent performs every one of its requests. *)
+Definition revocations_performed_full : Prop :=
+  forall s h dch x,
+    aget h (da_children s) = Some dch ->
+    amem (name_in_parent (dc_ch dch) (d_prcn x)) (da_classes s) = true ->
+    exists s', revoke_all s h (class_revocations x) = Done s'.
+
+(** Candidate finding (replayed on the real code, c02 --revstop 1): the exchange ends at the first refused request
+    (manager.rs send_revoke_requests_rfc6492; a parent in the same instance refuses with an error). A class in
+    RollNew whose NEW key's certificate the parent already removed (its own certificate shrank): the request for the
+    new key is refused (KeyUseNoIssuedCert), the one for the CURRENT key is never sent, and its certificate stays. *)
+Definition rs_parent : dca :=
+  mkDCA [(0, mkDC 1 0 (KActive (mkCK 1 (mkCert 1 0xE000E 0) false)) [] [(7, mkIC 0xE000E no_limit 9)] [] [])]
+        [(4, mkDCh 0x10001 (mkChild false [(7, InUse 0); (8, Revoked)] []))] [] 1.
+Definition rs_given_up : dclass :=
+  mkDC 9 0 (KRollNew (mkCK 8 (mkCert 8 0x10001 0) false) (mkCK 7 (mkCert 7 0xF000F 0) false)) [] [] [] [].
+
+Theorem revocations_performed_refuted : ~ revocations_performed_full.
+Proof.
+  intro H. destruct (H rs_parent 4 (mkDCh 0x10001 (mkChild false [(7, InUse 0); (8, Revoked)] [])) rs_given_up eq_refl eq_refl) as [s' E].
+  vm_compute in E. discriminate.
+Qed.
+
+Example revocation_stops_at_refused_request :
+  class_revocations rs_given_up = [(0, 8); (0, 7)]
+  /\ revoke_all rs_parent 4 (class_revocations rs_given_up) = Refused
+  /\ (exists dc, aget 0 (da_classes rs_parent) = Some dc /\ holds_key dc 7 = true)
+  (* sent alone, the request for the current key would have been performed *)
+  /\ (exists s' dc', revoke_all rs_parent 4 [(0, 7)] = Done s' /\ aget 0 (da_classes s') = Some dc' /\ holds_key dc' 7 = false).
+Proof.
+  split; [reflexivity|]. split; [vm_compute; reflexivity|]. split; [eexists; split; vm_compute; reflexivity|].
+  do 2 eexists. split; [vm_compute; reflexivity|]. split; vm_compute; reflexivity.
+Qed.
+
+(** the other keys of the child are not touched by a revocation *)
+Lemma revoke_step_others s h crcn ki s' dch c dc :
+  aget h (da_children s) = Some dch -> name_in_parent (dc_ch dch) crcn = c -> aget c (da_classes s) = Some dc ->
+  dprocess s (XRevoke h crcn ki) = Done s' ->
+  exists dch', aget h (da_children s') = Some dch' /\ ch_map (dc_ch dch') = ch_map (dc_ch dch)
+               /\ forall k, k <> ki -> ch_is_issued (dc_ch dch') k = ch_is_issued (dc_ch dch) k.
+Proof.
+  intros Hh Hn Hc H. cbn [dprocess] in H. rewrite Hh in H. cbv zeta in H. rewrite Hn, Hc in H.
+  destruct (ch_is_issued (dc_ch dch) ki) eqn:Ei; [|discriminate]. cbn [negb] in H. inv H.
+  cbn [da_children da_with].
+  assert (Hr : ch_is_issued (ch_set_used (dc_ch dch) ki Revoked) ki = false).
+  { unfold ch_is_issued, ch_set_used. cbn [ch_used]. rewrite aget_ainsert_eq. reflexivity. }
+  rewrite Hr. cbn [aget]. rewrite N.eqb_refl. eexists. split; [reflexivity|]. cbn [dc_ch ch_with]. split; [reflexivity|].
+  intros k Hk. unfold ch_is_issued, ch_set_used. cbn [ch_used]. rewrite aget_ainsert_neq by exact Hk. reflexivity.
+Qed.
+
+(** The strongest restriction: the requests are all performed when the parent still counts every certified key
+    of the class as in use (and the keys are distinct). *)
+Lemma revoke_all_total h crcn c : forall keys s dch dc,
+  aget h (da_children s) = Some dch -> name_in_parent (dc_ch dch) crcn = c -> aget c (da_classes s) = Some dc ->
+  NoDup keys -> (forall k, In k keys -> ch_is_issued (dc_ch dch) k = true) ->
+  exists s', revoke_all s h (map (fun k => (crcn, k)) keys) = Done s'.
+Proof.
+  induction keys as [|k0 keys IH]; intros s dch dc Hh Hn Hc Hnd Hall; [eexists; reflexivity|].
+  cbn [map revoke_all].
+  assert (E1 : exists s1, dprocess s (XRevoke h crcn k0) = Done s1).
+  { cbn [dprocess]. rewrite Hh. cbv zeta. rewrite Hn, Hc, (Hall k0 (or_introl eq_refl)). cbn [negb]. eexists. reflexivity. }
+  destruct E1 as [s1 E1]. rewrite E1.
+  destruct (revoke_step _ _ _ _ _ _ _ _ Hh Hn Hc E1) as [_ [Hc1 _]].
+  destruct (revoke_step_others _ _ _ _ _ _ _ _ Hh Hn Hc E1) as [dch1 [Hh1 [Hm1 Hoth]]].
+  inv Hnd. eapply (IH s1 dch1); eauto.
+  - unfold name_in_parent in *. rewrite Hm1. reflexivity.
+  - intros k Hin. rewrite Hoth; [apply Hall; right; exact Hin|]. intros ->. contradiction.
+Qed.
+
+Theorem revocations_performed_when_in_use s h dch x :
+  aget h (da_children s) = Some dch ->
+  amem (name_in_parent (dc_ch dch) (d_prcn x)) (da_classes s) = true ->
+  NoDup (ks_certified (d_keys x)) ->
+  (forall k, In k (ks_certified (d_keys x)) -> ch_is_issued (dc_ch dch) k = true) ->
+  exists s', revoke_all s h (class_revocations x) = Done s'.
+Proof.
+  intros Hh Hm Hnd Hall. unfold amem in Hm. destruct (aget _ (da_classes s)) as [dc|] eqn:Hc; [|discriminate].
+  eapply revoke_all_total; eauto.
+Qed.
+
+Example revocations_performed_when_in_use_nonvacuous :
+  aget 4 (da_children rv_parent) = Some (mkDCh 0xF000F0 (mkChild false [(6, InUse 0); (7, InUse 1)] []))
+  /\ NoDup (ks_certified (d_keys (rv_dropped 1)))
+  /\ (forall k, In k (ks_certified (d_keys (rv_dropped 1))) -> ch_is_issued (mkChild false [(6, InUse 0); (7, InUse 1)] []) k = true).
+Proof.
+  split; [reflexivity|]. split; [repeat constructor; intros []|]. intros k [<-|[]]. reflexivity.
+Qed.
